@@ -218,12 +218,14 @@ impl<T: HttpClient> ConnectionPool<T> {
             server_id.clone(),
             Arc::new(RwLock::new(ConnectionStats::default())),
         );
+        // Guards of a server that is registered again stay alive: keep the counter and the
+        // permits they refer to
         self.active_requests
-            .insert(server_id.clone(), Arc::new(AtomicUsize::new(0)));
-        self.connection_limits.insert(
-            server_id,
-            Arc::new(Semaphore::new(self.config.max_connections_per_host)),
-        );
+            .entry(server_id.clone())
+            .or_insert_with(|| Arc::new(AtomicUsize::new(0)));
+        self.connection_limits
+            .entry(server_id)
+            .or_insert_with(|| Arc::new(Semaphore::new(self.config.max_connections_per_host)));
     }
 
     /// Get healthy client for server with connection limiting
@@ -428,8 +430,9 @@ impl<T: HttpClient> ConnectionPool<T> {
             stats.state = ConnectionState::Removed;
         }
 
+        // The permits stay with the server id: guards handed out before the removal are still
+        // alive and must count against the limit if the server is added again
         self.clients.remove(&server_id);
-        self.connection_limits.remove(&server_id);
 
         self.metrics.servers_removed.fetch_add(1, Ordering::Relaxed);
     }
